@@ -41,8 +41,9 @@ class SmallSetInterp {
   typedef typename SB::key_compare CmpB;
   typedef typename S::allocator_type A;
   typedef std::set<int, ModelCmp> Model;
-  static const int K = 3, KB = 2, KEYS = 16;
+  static const int K = 3, KB = 2;
   static const long N = SmallSetN<S>::value;
+  static const int KEYS = N > 12 ? 32 : 16;  // key domain: large enough to fill the inline storage of the big configurations
   static const long NB = SmallSetN<SB>::value;
   static const bool FLAT = SmallSetN<S>::flat;
   static const bool COPYABLE = ET<E>::copyable;
